@@ -313,7 +313,7 @@ Fixpoint levels_of (fuel : nat) (rx : list (list Z)) (l : list Z) : option (list
 Definition rop_of (rx : list (list Z)) (r : router) (l : list Z) : option rop :=
   let okH h := (0 <=? h) && (h <? Zlen (rhandles r)) in
   match l with
-  | 0 :: key => if forallb (fun k => (1 <=? k) && (k <=? 13)) key then Some (RSubscribe key) else None
+  | 0 :: key => if forallb (fun k => (0 <=? k) && (k <=? 13)) key then Some (RSubscribe key) else None
   | [1; h] => if okH h then Some (RUnsub (Z.to_nat h)) else None
   | [2; h] => if okH h then Some (RMute (Z.to_nat h)) else None
   | [3; h] => if okH h then Some (RUnmute (Z.to_nat h)) else None
